@@ -86,6 +86,9 @@ def oracle(name, ib, mb, meta):
             want.append(('send', 4 if x[0] == 1 else 3, bytes(x[8:14]), bytes(x[2:8]), own, 32))
         want.append(('ack', mapper[1], mapper[0], own, d['seq'], 32))
         got = [shape(a) for a in acts]
+        # "addressed to the mapper": real destination = the mapper; at Ethernet level the address the session was opened
+        # from, the one this Emit came from, or the mapper's own are all the mapper
+        if got and got[-1][0] == 'ack' and got[-1][1] in (mapper[1], d['esrc'], mapper[0]): got[-1] = ('ack', mapper[1]) + got[-1][2:]
         if got != want:
             k = next((j for j in range(min(len(got), len(want))) if got[j] != want[j]), min(len(got), len(want)))
             fmt = lambda t: tuple(v.hex() if isinstance(v, bytes) else v for v in t)
